@@ -142,6 +142,28 @@ Definition handle_min_max (f : axis -> ares) (minw : Q) (maxw : oq) (b : axis) :
       end
   end.
 
+(* ---- handle_min_max_height(function)(box, *args): like the width wrapper without the position, and it returns
+   at once while the height is still 'auto' (the content decides it later, block layout clamps it) *)
+Definition handle_min_max_h (f : axis -> ares) (minh : Q) (maxh : oq) (b : axis) : ares :=
+  let computed_ms := a_ms b in
+  let computed_me := a_me b in
+  let r1 := f b in
+  match a_size (fst r1) with
+  | None => r1
+  | Some h1 =>
+      let r2 :=
+        if (match maxh with Some m => gtb h1 m | None => false end)
+        then f (set_margins (set_size (fst r1) (num0 maxh)) computed_ms computed_me)
+        else r1 in
+      match a_size (fst r2) with
+      | None => r2
+      | Some h2 =>
+          if gtb minh h2
+          then f (set_margins (set_size (fst r2) minh) computed_ms computed_me)
+          else r2
+      end
+  end.
+
 (* ---- absolute_block: `if translate_box_width: translate_x -= new_box.width; new_box.translate(translate_x, _)`
    final_size = new_box.width (resp. new_box.height, the height after the content has been laid out) *)
 Definition final_pos (pos0 : Q) (final_size : Q) (r : bool * Q) : Q :=
@@ -307,20 +329,30 @@ Definition absw_judge (c : absw_case) : nat :=
     end in
   ((if same then 0 else 1) + (if spec_ok then 0 else 2))%nat.
 
-(* case: (top,bottom,height,mt,mb), (pad, py), (cby, cbh), content height,
+(* case: (top,bottom,height,mt,mb), (pad, py), (cby, cbh), content height, (min_height, max_height),
          implementation output (height, margin_top, margin_bottom, translate_box_height, translate_y) *)
-Definition absh_case := ((oq * oq * oq * oq * oq) * (Q * Q) * (Q * Q) * Q * (oq * oq * oq * bool * Q))%type.
+Definition absh_case := ((oq * oq * oq * oq * oq) * (Q * Q) * (Q * Q) * Q * (Q * oq) * (oq * oq * oq * bool * Q))%type.
 
 Definition absh_judge (c : absh_case) : nat :=
-  let '((t, bo, h, mt, mb), (pad, py), (cby, cbh), content, (oh, omt, omb, otbh, oty)) := c in
+  let '((t, bo, h, mt, mb), (pad, py), (cby, cbh), content, (minh, maxh), (oh, omt, omb, otbh, oty)) := c in
   let b := mk_axis t bo h mt mb pad py in
-  let '(b', (tbh, ty)) := abs_height cby cbh b in
+  let '(b', (tbh, ty)) := handle_min_max_h (abs_height cby cbh) minh maxh b in
   let same := oq_eqb (a_size b') oh && oq_eqb (a_ms b') omt && oq_eqb (a_me b') omb && Bool.eqb tbh otbh && Qeq_bool ty oty in
   let spec_ok :=
     match omt, omb with
     | Some MT, Some MB =>
         let H := match oh with Some x => x | None => content end in
-        axis_spec_b false true cby cbh b (mk_placed (final_pos py H (otbh, oty)) MT MB H)
+        let p := mk_placed (final_pos py H (otbh, oty)) MT MB H in
+        (* CSS 2.1 10.7: the rules are applied with the clamped height as the specified one *)
+        match h with
+        | Some h0 => axis_spec_b false true cby cbh (set_size b (clamped_width h0 minh maxh)) p
+        | None =>
+            match oh with
+            | Some H' => (axis_spec_b false true cby cbh b p || axis_spec_b false true cby cbh (set_size b H') p) &&
+                         Qle_bool minh H' && (match maxh with Some m => Qle_bool H' m || Qle_bool m minh | None => true end)
+            | None => axis_spec_b false true cby cbh b p
+            end
+        end
     | _, _ => false
     end in
   ((if same then 0 else 1) + (if spec_ok then 0 else 2))%nat.
